@@ -34,6 +34,11 @@ ASSUMPTIONS = ['callbacks neither raise nor call back into the machine (C04/C05)
                'hierarchical laws (nested dict vs joined names, embedded machine with remap) are checked by '
                'implementation-vs-implementation comparison only (extra_checks), not by the Coq model',
                'State objects passed as references are the registered objects (identity is not modelled)',
+               'embedded-machine check: event names include to_-prefixed names that are no automatic transitions, the '
+               'embedded machine has auto_transitions on or off and one or two levels; the combination auto_transitions on '
+               '+ nested states in the embedded machine is excluded (its to_<parent>_<child> events survive embedding, '
+               'reported separately), as are user transitions on an event named like an automatic one while '
+               'auto_transitions is on',
                'no known finding is attributed by this check: D27/D28 (Enum/State forms in add_ordered_transitions '
                'states and in Machine.remove_transition filters) are fixed in /repo and proved as laws']
 THEOREMS = ['C13_callback_repr', 'C13_callback_repr_state', 'C13_callback_repr_machine', 'C13_state_repr',
@@ -1199,9 +1204,13 @@ def _nested_pair(rng):
     return dict(paths=joined, transitions=trans, initial=init, history=history), outs
 
 
-def _remap_pair(rng):
+def _remap_pair(rng, allow_auto_nested=False):
     """a machine embedded as children with remap vs the explicit nested definition whose remapped
-    states leave through the remap target"""
+    states leave through the remap target.  Event names come from a pool that contains 'to_'-prefixed
+    names that are no automatic transitions ('to_next', 'to_x1', and - when the embedded machine has
+    auto_transitions off - names of the form 'to_<state>'); the embedded machine has auto_transitions
+    on or off, one or two levels (a compound state given as dict children or as a further embedded
+    machine), callbacks in every slot."""
     from transitions.extensions.nesting import HierarchicalMachine as HM
     n = rng.randint(2, 4)
     sub_states = ['a%d' % i for i in range(n)]
@@ -1210,15 +1219,36 @@ def _remap_pair(rng):
     kept = sub_states[:-nrem]
     parents = ['idle', 'other']
     remap = {s: rng.choice(parents) for s in remapped}
-    triggers = ['t%d' % i for i in range(rng.randint(1, 3))]
+    sub_auto = rng.random() < 0.5
+    parent_auto = rng.random() < 0.3
+    # second level: one kept state is a compound with children x, y (dict children or a further embedded machine)
+    deep = None
+    if rng.random() < 0.5 and (allow_auto_nested or not sub_auto):
+        deep = dict(state=rng.choice(kept), how=rng.choice(['dict', 'machine']), kids=['x', 'y'][:rng.randint(1, 2)])
+    pool = ['t0', 't1', 'to_next', 'to_x1', 'to_', 'to_work']
+    if not sub_auto:
+        pool += ['to_' + s for s in sub_states]          # user-defined events that merely look automatic
+    triggers = rng.sample(pool, rng.randint(1, min(4, len(pool))))
+    names = list(sub_states)
+    if deep:
+        names += ['%s_%s' % (deep['state'], k) for k in deep['kids']]
     sub_trans = []
-    for _ in range(rng.randint(1, 6)):
-        sub_trans.append([rng.choice(triggers), rng.choice(sub_states), rng.choice(sub_states)])
+    for _ in range(rng.randint(1, 7)):
+        sub_trans.append([rng.choice(triggers), rng.choice(names), rng.choice(names)])
+    deep_trans = []
+    if deep and len(deep['kids']) > 1:
+        deep_trans = [[rng.choice(triggers + ['dt']), rng.choice(deep['kids']), rng.choice(deep['kids'])]
+                      for _ in range(rng.randint(0, 2))]
     top_trans = [['start', 'idle', 'work'], ['start', 'other', 'work']] + \
                 [[rng.choice(triggers), rng.choice(parents), rng.choice(parents + ['work'])] for _ in range(rng.randint(0, 2))]
-    history = [rng.choice(triggers + ['start', 'start']) for _ in range(rng.randint(2, 9))]
-    cond_val = {i: rng.random() < 0.7 for i in range(len(sub_trans))}
-    unless_val = {i: rng.random() < 0.25 for i in range(len(sub_trans))}
+    history = [rng.choice(triggers + ['start', 'start', 'dt']) for _ in range(rng.randint(2, 10))]
+    nt = len(sub_trans) + len(deep_trans)
+    cond_val = {i: rng.random() < 0.75 for i in range(nt)}
+    unless_val = {i: rng.random() < 0.2 for i in range(nt)}
+    slots = {i: rng.sample(['conditions', 'unless', 'before', 'after', 'prepare'], rng.randint(0, 5)) for i in range(nt)}
+
+    def top(nm):
+        return nm.split('_')[0]
     outs = []
     for variant in ('embedded', 'explicit'):
         log = []
@@ -1231,36 +1261,62 @@ def _remap_pair(rng):
         model = type('M', (object,), {})()
 
         def tdict(i, t, src=None, dst=None):
-            return dict(trigger=t[0], source=src or t[1], dest=dst or t[2],
-                        conditions=[rec('cond', 'c%d' % i, cond_val[i])], unless=rec('unless', 'u%d' % i, unless_val[i]),
-                        before=rec('before', 'b%d' % i), after=[rec('after', 'f%d' % i)], prepare=rec('prepare', 'p%d' % i))
+            d = dict(trigger=t[0], source=src or t[1], dest=dst or t[2])
+            if 'conditions' in slots[i]:
+                d['conditions'] = [rec('cond', 'c%d' % i, cond_val[i])]
+            if 'unless' in slots[i]:
+                d['unless'] = rec('unless', 'u%d' % i, unless_val[i])
+            if 'before' in slots[i]:
+                d['before'] = rec('before', 'b%d' % i)
+            if 'after' in slots[i]:
+                d['after'] = [rec('after', 'f%d' % i), rec('after', 'g%d' % i)]
+            if 'prepare' in slots[i]:
+                d['prepare'] = rec('prepare', 'p%d' % i)
+            return d
+
+        def sdict(s, path):
+            return dict(name=s, on_enter=rec('enter', path + s), on_exit=[rec('exit', path + s)])
+
+        def deep_def(s, path, embedded):
+            d = sdict(s, path)
+            kids = [sdict(k, path + s + '_') for k in deep['kids']]
+            dts = [tdict(len(sub_trans) + j, t) for j, t in enumerate(deep_trans)]
+            if embedded and deep['how'] == 'machine':
+                d['children'] = HM(model=None, states=kids, transitions=dts, initial=deep['kids'][0], auto_transitions=False)
+            else:
+                d['children'] = kids
+                d['initial'] = deep['kids'][0]
+                if dts:
+                    d['transitions'] = dts
+            return d
+
+        def state_defs(which, embedded):
+            return [deep_def(s, 'work_', embedded) if deep and s == deep['state'] else sdict(s, 'work_') for s in which]
         if variant == 'embedded':
-            sub = HM(model=None, states=[dict(name=s, on_enter=rec('enter', 'work_' + s), on_exit=rec('exit', 'work_' + s))
-                                         for s in sub_states],
-                     transitions=[tdict(i, t) for i, t in enumerate(sub_trans)], initial=kept[0], auto_transitions=False)
-            m = HM(model=None, initial=None, auto_transitions=False,
+            sub = HM(model=None, states=state_defs(sub_states, True),
+                     transitions=[tdict(i, t) for i, t in enumerate(sub_trans)], initial=kept[0], auto_transitions=sub_auto)
+            m = HM(model=None, initial=None, auto_transitions=parent_auto,
                    states=['idle', 'other', dict(name='work', children=sub, remap=remap)])
         else:
-            inner = [tdict(i, t) for i, t in enumerate(sub_trans) if t[1] in kept and t[2] in kept]
-            m = HM(model=None, initial=None, auto_transitions=False,
+            inner = [tdict(i, t) for i, t in enumerate(sub_trans) if top(t[1]) in kept and top(t[2]) in kept]
+            m = HM(model=None, initial=None, auto_transitions=parent_auto,
                    states=['idle', 'other',
-                           dict(name='work', initial=kept[0], transitions=inner,
-                                children=[dict(name=s, on_enter=rec('enter', 'work_' + s), on_exit=rec('exit', 'work_' + s))
-                                          for s in kept])])
+                           dict(name='work', initial=kept[0], transitions=inner, children=state_defs(kept, False))])
             m.add_transitions([tdict(i, t, src='work_' + t[1], dst=remap[t[2]])
-                               for i, t in enumerate(sub_trans) if t[1] in kept and t[2] in remapped])
+                               for i, t in enumerate(sub_trans) if top(t[1]) in kept and t[2] in remapped])
         m.add_transitions([list(t) for t in top_trans])
         m.initial = 'idle'
         m.add_model(model)
         outs.append(_hsm_observe(m, model, log, history, None))
-    return dict(sub_states=sub_states, remap=remap, sub_transitions=sub_trans, top_transitions=top_trans,
-                history=history, cond=cond_val), outs
+    return dict(sub_states=sub_states, remap=remap, sub_auto=sub_auto, parent_auto=parent_auto, deep=deep,
+                sub_transitions=sub_trans, deep_transitions=deep_trans, top_transitions=top_trans,
+                history=history, cond=cond_val, unless=unless_val, slots=slots), outs
 
 
 def extra_checks(tier, seed):
     import random
     flat._import_transitions()
-    n = 150 if tier == 'quick' else 3000
+    n = 400 if tier == 'quick' else 4000
     res = []
     for name, fn in (('hsm_nested_dict_vs_joined_names', _nested_pair), ('hsm_embedded_machine_remap', _remap_pair)):
         bad = None
